@@ -70,7 +70,8 @@ CLAIMED = {
     'C12': ('4 C12', 'set_mode/reset_mode with lists of symbolic mode numbers and a symbolic private flag from symbolic '
             'states; z3 decides the resulting mode set for an arbitrary probe number and every documented side effect '
             '(132-column switch executed for real, homing, reverse video on every cell, visibility), plus the DECCOLM '
-            'round trip, also from never-written screens wider than 132 (133, 256; thorough 131..512) columns.'),
+            'round trip, also from never-written screens wider than 132 (133, 256; thorough 131..512) columns, and a '
+            'sparsely written 9x6 screen.'),
     'C20': ('4 C20', 'The four 256-entry tables are compared with independently transcribed tables by one solver query per '
             'table over a symbolic index; draw of a symbolic code point is compared with the reference translation for '
             'every G0/G1 designation and shift state; SO/SI/designation through the API and the recogniser.'),
